@@ -12,6 +12,7 @@ import (
 	"encoding/json"
 	"errors"
 	"fmt"
+	"io"
 	"os"
 	"path/filepath"
 	"strings"
@@ -216,7 +217,17 @@ func appendEvents(path string, events []Event) error {
 		buf = append(buf, data...)
 		buf = append(buf, '\n')
 	}
-	return writeAll(file, buf)
+	size, err := file.Seek(0, io.SeekEnd) // where this command's lines start
+	if err != nil {
+		return err
+	}
+	if err := writeAll(file, buf); err != nil {
+		// A write cut short (disk full, file size limit) must not leave the first lines of a
+		// command that is about to report failure: take back what was written.
+		_ = file.Truncate(size)
+		return err
+	}
+	return nil
 }
 
 // repairTornTail makes sure the log ends in '\n' before more lines are appended.
